@@ -84,14 +84,14 @@ TRet ==
   /\ IsEv("Ret") /\ Step
   /\ phase \in {"idle", "suspended"}
   /\ ev.ret = ret
-  /\ ResidOK(ev.resid)
-  /\ (phase = "idle" => ev.entry_point = entryPoint)
-  /\ (phase = "idle" /\ ret = "SUCCESS" => ev.file_size = fileSize)
+  /\ ev.full => /\ ResidOK(ev.resid)
+                 /\ (phase = "idle" => ev.entry_point = entryPoint)
+                 /\ (phase = "idle" /\ ret = "SUCCESS" => ev.file_size = fileSize)
   /\ UNCHANGED vars
 
 Silent ==
   /\ UNCHANGED l
-  /\ \/ BlockDone \/ ImportSkip \/ ExecRule \/ ExecEnd \/ ReportSkip \/ BlockTimeout \/ ExecTimeout
+  /\ \/ ScanBlock \/ BlockDone \/ ImportSkip \/ ExecRule \/ ExecEnd \/ ReportSkip \/ BlockTimeout \/ ExecTimeout
      \/ (cur.mode \notin {"blocks", "blocksnofs"} /\ (IterBlock \/ IterNull))
 
 TNext == TRules \/ TScan \/ TResume \/ TIter \/ TCb \/ TRet \/ Silent
